@@ -67,6 +67,8 @@ def analyse(prop: str, root: str, thorough: bool, overrides=None) -> RuleContext
 
 
 def write_evidence(prop, tier, ctx, wall, violations, status, mod=None, extra=None):
+    if os.environ.get("JTSA_NO_EVIDENCE"):
+        return  # debugging runs against scratch trees must not overwrite the evidence for /repo
     os.makedirs(EVIDENCE_DIR, exist_ok=True)
     seed = int(os.environ.get("VERIF_SEED", "0") or 0)
     obligations = ctx.obligations if ctx else []
